@@ -72,7 +72,7 @@ def build(obj, conc, foreign_owner=False):
         t.base_product.name, t.base_product.short, t.base_product.version = tx["bpname"], tx["bpshort"], tx["bpver"]
     arch = conc.binarch if sec["arch"] == "bin" else "src"
     t.tree.arch = arch
-    t.tree.build_timestamp = {"int": 1432300000, "float": 1432300000.75, "neg": -1}[sec["ts"]]
+    t.tree.build_timestamp = {"int": 1432300000, "float": 1432300000.75, "neg": -86400 if conc.rot % 2 else -1}[sec["ts"]]
     pl = {"p1": conc.p1, "p2": conc.p2}
     # the writer always lists the tree arch among the platforms; only image tables need it listed explicitly
     t.tree.platforms = set(pl[p] for p in sec["plats"]) | (set([arch]) if sec["imgs"] != "none" else set())
@@ -113,6 +113,10 @@ def build(obj, conc, foreign_owner=False):
     if sec["cks"]:
         t.checksums.add(IMG["boot"], "sha256", "a" * 64)
         t.checksums.add("Repo/repomd.XML", "md5", "b" * 32)
+        if conc.rot % 3 == 1:
+            # entries an older file brought along verbatim: legal spellings that are not normalised
+            t.checksums.checksums["./images//efiboot.img"] = ["sha1", "c" * 40]
+            t.checksums.checksums["EFI/BOOT/../grub.cfg"] = ["sha256", "d" * 64]
     return t
 
 
@@ -138,9 +142,9 @@ def render(x, conc, obj):
             import productmd.common
             return ".".join(str(i) for i in productmd.common.VERSION)
         if s == "$ts":
-            return {"int": "1432300000", "float": "1432300000.75", "neg": "-1"}[sec["ts"]]
+            return {"int": "1432300000", "float": "1432300000.75", "neg": "-86400" if conc.rot % 2 else "-1"}[sec["ts"]]
         if s == "$tsint":
-            return "-1" if sec["ts"] == "neg" else "1432300000"
+            return ("-86400" if conc.rot % 2 else "-1") if sec["ts"] == "neg" else "1432300000"
         if s == "$relname $relver":
             return "%s %s" % (conc.text["relname"], conc.text["relver"])
         if s.startswith("$"):
@@ -308,6 +312,16 @@ def evaluate(case):
                          % (what, ",".join(where), diff[:3]))
     except Exception as exc:
         fails.append("%s: re-read tree cannot be written: %s: %s" % (what, type(exc).__name__, exc))
+    if not fails and len(obj["tops"]) > 1 and obj["main"] == "default":
+        # the object is written once with an explicit main variant (the last one); a default dump afterwards is the first file again
+        try:
+            t.dump(io.StringIO(), main_variant=main_arg(dict(obj, main=sorted(obj["tops"])[-1]), conc))
+            again = io.StringIO()
+            t.dump(again)
+            if again.getvalue() != text:
+                fails.append("%s: after one dump with an explicit main variant, a plain dump of the same object differs from its first plain dump" % what)
+        except Exception as exc:
+            fails.append("%s: dump with an explicit main variant, then a plain dump: %s: %s" % (what, type(exc).__name__, exc))
     return fails[:6]
 
 
